@@ -1,4 +1,5 @@
 import MimeModel.Props.C03
+import MimeModel.Lemmas.DetectTie
 import MimeModel.Lemmas.Sig
 import MimeModel.Gen.Tree
 /-
@@ -417,5 +418,8 @@ example : isBinary (Gen.builtin.walk (accepts ⟨fun _ _ _ => false, fun _ => []
   constructor
   · decide
   · decide
+
+/-- regenerated tie: `Detect` / `DetectReader` load the limit once, atomically (see Lemmas/DetectTie.lean) -/
+theorem tie_single_limit : Mime.DetectTie.SingleLimit := Mime.DetectTie.single_limit
 
 end Mime.C17
